@@ -135,7 +135,14 @@ c_mut = Component("mappings-reject-mutation", "set / delete / insert / clear / u
 
 NCFG = 2 if TIER == "quick" else 3
 for ci in range(NCFG):
-    blk, desc = cfggen.config_block(rng, https=bool(ci % 2))
+    # settings whose decoded values are lists / structured (shared mutable values inside the cached views)
+    gate = [0, 0] + [1] * 21 if ci % 2 == 0 else [rng.randrange(2) for _ in range(23)]
+    extra = [cfggen.setting(78, 3, bytes(gate)),
+             cfggen.setting(51, 3, bytes([1, 8, 2]) + bytes([6]) + (16).to_bytes(2, "big") + (6).to_bytes(4, "big") + b"ntdll\x00" +
+                            (5).to_bytes(4, "big") + b"Func\x00" + b"\x00", 128),
+             cfggen.setting(42, 3, (0x1000).to_bytes(4, "little") + (0x2000).to_bytes(4, "little") + bytes(8), 32),
+             cfggen.setting(46, 3, (2).to_bytes(4, "big") + b"ap" + (3).to_bytes(4, "big") + b"pre", 64)]
+    blk, desc = cfggen.config_block(rng, https=bool(ci % 2), extra=extra)
     fresh = lambda: BeaconConfig(blk)     # noqa: E731
     snap0 = snapshot(fresh())
     expected = []
